@@ -8,10 +8,12 @@ use std::fmt;
 use std::panic::{catch_unwind, AssertUnwindSafe};
 
 use cosmian_cover_crypt::{
-    api::Covercrypt, traits::KemAc, AccessPolicy, EncryptionHint, MasterPublicKey, MasterSecretKey,
+    api::Covercrypt,
+    traits::{KemAc, PkeAc},
+    AccessPolicy, EncryptionHint, MasterPublicKey, MasterSecretKey,
     QualifiedAttribute, UserSecretKey, XEnc,
 };
-use cosmian_crypto_core::bytes_ser_de::Serializable;
+use cosmian_crypto_core::{bytes_ser_de::Serializable, Aes256Gcm};
 
 use crate::model::*;
 use crate::wire::{self, WMpk, WMsk, WRsk, WUsk};
@@ -196,7 +198,20 @@ pub struct World {
     pub max_usks: usize,
     pub rt_encs: bool,
     pub full_matrix: bool,
+    /// long-lived PKE ciphertexts (made once, under the first structured public key) that are
+    /// decrypted again after every operation with the key it touched: the same ciphertext object
+    /// meets the same instance before and after the key changes
+    pub pke: Vec<PkeEntry>,
+    pub pke_probes: bool,
 }
+
+pub struct PkeEntry {
+    pub policy: String,
+    pub model: EncM,
+    pub ct: (XEnc, Vec<u8>),
+}
+
+pub const PKE_PLAINTEXT: &[u8] = b"long-lived plaintext";
 
 pub fn hint(h: bool) -> EncryptionHint {
     if h {
@@ -252,6 +267,8 @@ impl World {
             max_usks: 3,
             rt_encs: false,
             full_matrix: false,
+            pke: vec![],
+            pke_probes: false,
         };
         w.observe_msk("setup", &[(vec![], 0)]);
         let m = w.model.mpk();
@@ -827,6 +844,16 @@ impl World {
             let _ = j;
         }
 
+        // ---- long-lived PKE ciphertexts (both modes: the instance must see every decryption) ----
+        if self.pke_probes {
+            if self.pke.is_empty() && self.mpks.len() >= 2 && !self.usks.is_empty() {
+                self.pke_init();
+            }
+            if let Some(k) = touched_usk {
+                self.pke_probe(k, mode == Mode::Check);
+            }
+        }
+
         // ---- the user key touched by the call ---------------------------------------------
         if let Some(k) = touched_usk {
             if matches!(op, Op::Keygen(_)) {
@@ -916,6 +943,50 @@ impl World {
             }
         }
         self.usks[k].model.held = held;
+    }
+
+    /// Encrypts the menu once, under the first public key that has a structure.
+    fn pke_init(&mut self) {
+        let j = 1;
+        for p in self.enc_menu.clone() {
+            let Some(ap) = self.parse_policy(&p) else { continue };
+            let Ok(m) = self.mpks[j].model.encaps(&parse_dnf(&p)) else { continue };
+            if let Ok(Ok(ct)) = guarded!(PkeAc::<{ Aes256Gcm::KEY_LENGTH }, Aes256Gcm>::encrypt(&self.cc, &self.mpks[j].mpk, &ap, PKE_PLAINTEXT)) {
+                self.pke.push(PkeEntry { policy: p, model: m, ct });
+            }
+        }
+        for k in 0..self.usks.len() {
+            self.pke_probe(k, false);
+        }
+    }
+
+    /// Decrypts every long-lived ciphertext with key k; compares with the model when `check`.
+    fn pke_probe(&mut self, k: usize, check: bool) {
+        for i in 0..self.pke.len() {
+            let want = self.usks[k].model.opens(&self.pke[i].model);
+            let r = guarded!(PkeAc::<{ Aes256Gcm::KEY_LENGTH }, Aes256Gcm>::decrypt(&self.cc, &self.usks[k].usk, &self.pke[i].ct));
+            self.bump("pke_decrypts");
+            if !check {
+                continue;
+            }
+            let desc = format!("key {k} ({}) on the long-lived ciphertext for {:?}", self.usks[k].policy, self.pke[i].policy);
+            match r {
+                Ok(Ok(Some(ptx))) => {
+                    if !want {
+                        self.fail("C12.h", format!("{desc}: decrypts although the key no longer holds (or never held) a targeted secret"));
+                    } else if *ptx != PKE_PLAINTEXT {
+                        self.fail("C12.h", format!("{desc}: decrypts to different data"));
+                    }
+                }
+                Ok(Ok(None)) => {
+                    if want {
+                        self.fail("C12.h", format!("{desc}: 'not authorised' although the key holds a targeted secret"));
+                    }
+                }
+                Ok(Err(e)) => self.fail("C12.h", format!("{desc}: Err({e})")),
+                Err(_) => self.fail("C12.h", format!("{desc}: panicked")),
+            }
+        }
     }
 
     /// An issued key (by generation or by an earlier refresh) stays acceptable to refresh: probed
